@@ -1,4 +1,4 @@
-"""C03 -- extract preserves behaviour or is refused (VGC rules R03.1-R03.11)."""
+"""C03 -- extract preserves behaviour or is refused (VGC rules R03.1-R03.12)."""
 from __future__ import annotations
 
 import ast
@@ -364,6 +364,26 @@ def check(ctx, res) -> None:
     from .c15 import scope_end_rule
 
     scope_end_rule(ctx, res, "R03.11")
+
+    # ---- R03.12 sibling agreement on "inside the region": the collector decides it for reads, writes and for the
+    # conditional context with a chained comparison against self.start / self.end; all of them use the same closed interval
+    n12 = 0
+    shapes = {}
+    for mname, m in sorted(coll.methods.items()):
+        for x in walk_local(m.node):
+            if isinstance(x, ast.Compare) and len(x.ops) == 2 and {y.attr for y in ast.walk(x) if is_self_attr(y)} >= {"start", "end"} \
+                    and is_self_attr(x.left, "start") and is_self_attr(x.comparators[1], "end"):
+                n12 += 1
+                shapes.setdefault((type(x.ops[0]).__name__, type(x.ops[1]).__name__), []).append((m, x))
+    for shape, sites in sorted(shapes.items()):
+        for m, x in sites:
+            ok = shape == ("LtE", "LtE")
+            res.add("R03.12", f"{m.name}|region-interval", ok, f"{m.unit.rel}:{x.lineno}",
+                    "inside-the-region is the closed interval [start, end] of lines" if ok else
+                    f"{m.name} tests `{ast.unparse(x)}` while the other in-region tests of the collector use start <= line <= end: a one-line compound "
+                    "statement on the region's last line is not treated as conditional, so what it assigns counts as always written (returned but not "
+                    "passed in: UnboundLocalError on the path where its body does not run)", function=m.qualname)
+    res.floor("R03.12", "in-region interval tests of the collector", n12, 3)
 
     # ---- R03.6 suite walker
     idx.need_class(SUITES)
